@@ -382,6 +382,23 @@ func vmapLines(in []byte, f func(i int, l string) string) []byte {
 	return []byte(strings.Join(ls, "\n"))
 }
 
+// vallDashes replaces every hyphen that has a non-blank character on both sides by the given form.
+func vallDashes(in []byte, form string) []byte {
+	var sb strings.Builder
+	for _, l := range strings.SplitAfter(string(in), "\n") {
+		body := strings.TrimRight(l, "\r\n")
+		for i, ch := range body {
+			if ch == '-' && i > 0 && i < len(body)-1 && body[i-1] != ' ' && body[i+1] != ' ' && body[i-1] != '-' && body[i+1] != '-' {
+				sb.WriteString(form)
+			} else {
+				sb.WriteRune(ch)
+			}
+		}
+		sb.WriteString(l[len(body):])
+	}
+	return []byte(sb.String())
+}
+
 // vhyphenEOL reports whether some line ends in a hyphen (C05's exemption).
 func vhyphenEOL(in []byte) bool {
 	for _, l := range strings.Split(string(in), "\n") {
@@ -460,6 +477,12 @@ var vtransforms = []vtransform{
 		}
 		return []byte(sb.String())
 	}},
+	// each Unicode dash form on its own, for EVERY inner hyphen (digit-led words such as "02110-1301" and
+	// dates keep their hyphens through cleanupToken, so the form that stands for '-' matters there)
+	{"dash-2010", "C05", true, func(r *vrand, in []byte) []byte { return vallDashes(in, "\u2010") }},
+	{"dash-2012", "C05", true, func(r *vrand, in []byte) []byte { return vallDashes(in, "\u2012") }},
+	{"dash-2013", "C05", true, func(r *vrand, in []byte) []byte { return vallDashes(in, "\u2013") }},
+	{"dash-2014", "C05", true, func(r *vrand, in []byte) []byte { return vallDashes(in, "\u2014") }},
 	{"unicode-quotes", "C05", true, func(r *vrand, in []byte) []byte {
 		s := string(in)
 		var sb strings.Builder
@@ -674,8 +697,8 @@ func vmetaInputs(r *vrand, n int) []vinput {
 	}
 	// curated: URLs inside parentheses and after a colon, section numbers, lettered lists, long lines
 	for i, d := range vnamed("License/Apache-1.1/license.txt", "License/OpenSSL/a.txt", "License/MIT/a.txt",
-		"License/BSD-3-Clause/a.txt", "License/LPPL-1.3c/license.txt", "License/Unicode-DFS-2016/license.txt") {
-		if vthorough() || i%3 == int(vseed()%3) || i < 2 {
+		"License/BSD-3-Clause/a.txt", "License/LPPL-1.3c/license.txt", "License/Unicode-DFS-2016/license.txt", "Header/GPL-2.0/h.txt") {
+		if vthorough() || i%3 == int(vseed()%3) || i < 2 || i == 6 {
 			out = append(out, vinput{id: fmt.Sprintf("xc%d", i), data: d.data})
 		}
 	}
